@@ -187,6 +187,22 @@ func genPubItem(r *rng, ctx pubCtx, id string, now int64, invalid int, force *pu
 	}
 	if nbytes > 0 || r.chance(50) {
 		it.PayloadB64 = base64.StdEncoding.EncodeToString(pl)
+		if r.chance(20) && len(it.PayloadB64) > 4 {
+			// the same bytes written with line breaks (MIME style; Go's decoder skips CR and LF): the decoded size is what
+			// counts against max_body, not the length of the text
+			w := pick(r, []int{4, 8, 76})
+			nl := pick(r, []string{"\r\n", "\n"})
+			var sb strings.Builder
+			for i := 0; i < len(it.PayloadB64); i += w {
+				e := i + w
+				if e > len(it.PayloadB64) {
+					e = len(it.PayloadB64)
+				}
+				sb.WriteString(it.PayloadB64[i:e])
+				sb.WriteString(nl)
+			}
+			it.PayloadB64 = sb.String()
+		}
 	}
 	if r.chance(6) {
 		it.PayloadB64 = "  "
